@@ -1472,9 +1472,18 @@ class Program(object):
                 fname = d.name
                 if fname in ("__init__", "__new__") and "." in q:
                     fname = q.split(".")[-2]
+                a_ = d.args
+                pos_ = a_.posonlyargs + a_.args
+                dflt = dict(zip([x.arg for x in pos_[len(pos_) -
+                                                     len(a_.defaults):]],
+                                a_.defaults))
+                for x, dv in zip(a_.kwonlyargs, a_.kw_defaults):
+                    if dv is not None:
+                        dflt[x.arg] = dv
                 for p_ in ps:
                     cands.setdefault(fname, []).append(
                         (name, q, p_, names.index(p_) if p_ in names
+                         else None, ast.dump(dflt[p_]) if p_ in dflt
                          else None))
         if not cands:
             return
@@ -1490,10 +1499,32 @@ class Program(object):
                     continue
                 n_pos = len([a for a in c.args
                              if not isinstance(a, ast.Starred)])
-                kws = {k.arg for k in c.keywords}
-                for mod_, q, p_, idx in cands[nm]:
-                    if p_ in kws or (idx is not None and n_pos > idx) or \
-                            None in kws:
+                kws = {k.arg: k.value for k in c.keywords}
+                # the caller's own new parameters (forwarding one of them
+                # is the default path handing its default on)
+                host = getattr(c, "_parent", None)
+                while host is not None and not isinstance(
+                        host, (ast.FunctionDef, ast.AsyncFunctionDef)):
+                    host = getattr(host, "_parent", None)
+                own_new = set(m.new_params.get(getattr(
+                    host, "_qualname", None), ())) if host is not None \
+                    else set()
+
+                def forwarded(v, dd=None):
+                    # the caller's own new parameter handed on, or the
+                    # default itself written out
+                    return (isinstance(v, ast.Name) and v.id in own_new) or \
+                        (dd is not None and ast.dump(v) == dd)
+                for mod_, q, p_, idx, dd in cands[nm]:
+                    hit = False
+                    if p_ in kws and not forwarded(kws[p_], dd):
+                        hit = True
+                    elif idx is not None and n_pos > idx and \
+                            not forwarded(c.args[idx], dd):
+                        hit = True
+                    elif None in kws:
+                        hit = True
+                    if hit:
                         veto.setdefault(mod_, set()).add((q, p_))
         for mod_, vs in veto.items():
             m = self.modules[mod_]
